@@ -17,6 +17,7 @@
 // Oracle = a std::deque / std::vector mirror maintained by the harness only
 // from the operations' arguments and the documented contract.
 #include "common/hv.h"
+#include "C03_acc.h"
 #include <deque>
 #include <memory>
 #include <climits>
@@ -345,43 +346,43 @@ template <class T> struct TR
     {
         auto &x = *t;
         return S(x.head_index()) + " " + S(x.tail_index()) + " " + S(x.avail()) + " " + S(x.room()) + " " +
-               S(x.size()) + " " + S(x.empty() ? 1 : 0) + " " + S(x.buffer.size());
+               S(x.size()) + " " + S(x.empty() ? 1 : 0) + " " + S(std::min<uint64_t>(acc::bufsize(x), acc::rsize(x)));
     }
     void resync()
     {
         auto &x = *t;
         q.clear();
-        uint64_t size = x.r.size;
-        if (!size || x.r.head >= size || x.r.tail >= size || x.buffer.size() < size) return;
-        for (uint64_t i = x.r.tail; i != x.r.head; i = (i + 1) % size) q.push_back(x.buffer[i]);
+        uint64_t size = acc::rsize(x);
+        if (!size || acc::rhead(x) >= size || acc::rtail(x) >= size || acc::bufsize(x) < size) return;
+        for (uint64_t i = acc::rtail(x); i != acc::rhead(x); i = (i + 1) % size) q.push_back(acc::slot(x, i));
     }
     void check(out &o)
     {
         auto &x = *t;
-        uint64_t size = x.r.size;
-        if (x.buffer.size() < size)
-            o.fail("ring size " + S(size) + " exceeds its buffer of " + S(x.buffer.size()) + " elements");
-        if (!(x.r.head < size)) o.fail("head outside [0,size)");
-        if (!(x.r.tail < size)) o.fail("tail outside [0,size)");
+        uint64_t size = acc::rsize(x);
+        if (acc::bufsize(x) < size)
+            o.fail("ring size " + S(size) + " exceeds its buffer of " + S(acc::bufsize(x)) + " elements");
+        if (!(acc::rhead(x) < size)) o.fail("head outside [0,size)");
+        if (!(acc::rtail(x) < size)) o.fail("tail outside [0,size)");
         if ((uint64_t)x.avail() + x.room() != size - 1) o.fail("avail+room != size-1");
         if (x.avail() != q.size()) o.fail("avail " + S(x.avail()) + " != reference " + S(q.size()));
         if (x.empty() != q.empty()) o.fail("empty() disagrees with reference");
-        if (x.r.head < x.r.tail) o.tag("wrapped");
+        if (acc::rhead(x) < acc::rtail(x)) o.tag("wrapped");
         if (size & (size - 1)) o.tag("nonpow2");
-        if (x.r.head == 0) o.tag("head0");
+        if (acc::rhead(x) == 0) o.tag("head0");
         // stored elements = reference queue, in order
-        if (x.buffer.size() >= size && x.r.tail < size && x.avail() == q.size())
+        if (acc::bufsize(x) >= size && acc::rtail(x) < size && x.avail() == q.size())
         {
-            uint64_t i = x.r.tail;
+            uint64_t i = acc::rtail(x);
             for (size_t k = 0; k < q.size(); k++, i = (i + 1) % size)
-                if (x.buffer[i] != q[k]) { o.fail("stored element " + S(k) + " differs from reference"); break; }
+                if (acc::slot(x, i) != q[k]) { o.fail("stored element " + S(k) + " differs from reference"); break; }
         }
     }
     void run(const std::vector<std::string> &w, out &o)
     {
         auto &x = *t;
         const std::string &op = w[0];
-        int64_t size = x.r.size;
+        int64_t size = acc::rsize(x);
         std::string ret = "-";
         if (op == "push" || op == "emplace")
         {
@@ -399,10 +400,10 @@ template <class T> struct TR
         else if (op == "pushfull" || op == "popempty")
         { // the property's clause "a full ring rejects writes / an empty ring rejects reads without
           // changing state", judged on push()/pop() of the typed ring (recorded finding: they do not test)
-            unsigned h0 = x.r.head, t0 = x.r.tail, a0 = x.avail();
+            unsigned h0 = acc::rhead(x), t0 = acc::rtail(x), a0 = x.avail();
             if (op == "pushfull") x.push((T)strtol(w[1].c_str(), 0, 10)); else x.pop();
             bool applies = op == "pushfull" ? (int64_t)q.size() == size - 1 : q.empty();
-            if (applies && (x.r.head != h0 || x.r.tail != t0 || x.avail() != a0))
+            if (applies && (acc::rhead(x) != h0 || acc::rtail(x) != t0 || x.avail() != a0))
                 o.fail(op == "pushfull" ? "push on a full ring was not rejected: " + S(a0) + " stored elements became " + S(x.avail())
                                         : "pop on an empty ring was not rejected: avail became " + S(x.avail()));
             else if (!applies) { if (op == "pushfull") q.push_back((T)strtol(w[1].c_str(), 0, 10)); else q.pop_front(); }
@@ -422,7 +423,7 @@ template <class T> struct TR
         else if (op == "rst")
         {
             x.reset(); q.clear();
-            if (x.size() != x.buffer.size()) o.fail("reset: ring size != buffer size");
+            if (x.size() != acc::bufsize(x)) o.fail("reset: ring size != buffer size");
         }
         else if (op == "resize")
         {
@@ -434,7 +435,7 @@ template <class T> struct TR
         {
             T &e = x.tail();
             ret = S((int)e) + "@" + S(x.index_of(&e));
-            if (x.index_of(&e) != (int)x.r.tail) o.fail("tail() addresses slot " + S(x.index_of(&e)));
+            if (x.index_of(&e) != (int)acc::rtail(x)) o.fail("tail() addresses slot " + S(x.index_of(&e)));
             if (!q.empty() && e != q.front()) o.fail("tail() is not the oldest element");
         }
         else if (op == "last")
@@ -442,8 +443,8 @@ template <class T> struct TR
             T &e = x.last();
             int idx = x.index_of(&e);
             ret = S((int)e) + "@" + S(idx);
-            if (idx != emod((int64_t)x.r.head - 1, size))
-                o.fail("last() addresses slot " + S(idx) + " at head " + S(x.r.head) + " size " + S(size));
+            if (idx != emod((int64_t)acc::rhead(x) - 1, size))
+                o.fail("last() addresses slot " + S(idx) + " at head " + S(acc::rhead(x)) + " size " + S(size));
             else if (!q.empty() && e != q.back()) o.fail("last() is not the newest element");
         }
         else if (op == "headplace") ret = S((int)x.head_place());
@@ -459,13 +460,13 @@ template <class T> struct TR
             for (int i = 0; i < cnt; i++)
             {
                 int64_t back = fe ? (int64_t)off + i : (int64_t)off + cnt - 1 - i; // 0 = newest
-                int64_t slot = emod((int64_t)x.r.head - 1 - back, size);
-                if (v[i] != x.buffer[slot])
+                int64_t slot = emod((int64_t)acc::rhead(x) - 1 - back, size);
+                if (v[i] != acc::slot(x, slot))
                     o.fail("get_last element " + S(i) + " is not slot " + S(slot));
                 else if (back >= 0 && back < (int64_t)q.size() && v[i] != q[q.size() - 1 - back])
                     o.fail("get_last element " + S(i) + " is not the " + S(back) + "-th previous element");
             }
-            if (off + cnt > (int64_t)x.r.head) o.tag("getlast-wrap");
+            if (off + cnt > (int64_t)acc::rhead(x)) o.tag("getlast-wrap");
         }
         else if (op == "fixup")
         {
@@ -487,23 +488,23 @@ template <class T> struct TR
         {
             int i = (int)strtol(w[1].c_str(), 0, 10);
             x.set_last_index(i);
-            if ((int64_t)x.r.head != emod((int64_t)i + 1, size)) o.fail("set_last_index: head " + S(x.r.head));
+            if ((int64_t)acc::rhead(x) != emod((int64_t)i + 1, size)) o.fail("set_last_index: head " + S(acc::rhead(x)));
             resync();
         }
         else if (op == "settail")
         { // `r` is a public member ("direct control"): place the tail, e.g. next to an index-width boundary
-            x.r.tail = (unsigned)strtoul(w[1].c_str(), 0, 10);
+            acc::set_tail(x, (unsigned)strtoul(w[1].c_str(), 0, 10));
             resync();
         }
         else if (op == "fillbuf")
         { // the buffer is public too: slot i := i + 1, so that a store to a wrong slot is visible
-            for (size_t i = 0; i < x.buffer.size(); i++) x.buffer[i] = (T)(i + 1);
+            for (size_t i = 0; i < acc::bufsize(x); i++) acc::slot(x, i) = (T)(i + 1);
             resync();
         }
         else if (op == "copy")
         { // implicit copy constructor; the original is destroyed, the copy carries on
             std::unique_ptr<igris::ring<T>> c(new igris::ring<T>(x));
-            if (c->buffer.data() == x.buffer.data()) o.fail("copy shares the storage");
+            if (acc::storage(*c) == acc::storage(x)) o.fail("copy shares the storage");
             t = std::move(c);
             o.tag("copy");
         }
@@ -512,14 +513,14 @@ template <class T> struct TR
             std::unique_ptr<igris::ring<T>> c(new igris::ring<T>(3));
             c->push((T)9);
             *c = x;
-            if (c->buffer.data() == x.buffer.data()) o.fail("assignment shares the storage");
+            if (acc::storage(*c) == acc::storage(x)) o.fail("assignment shares the storage");
             t = std::move(c);
             o.tag("copy");
         }
         else if (op == "move")
         { // implicit move constructor; what is left in the moved-from object is printed
             std::unique_ptr<igris::ring<T>> c(new igris::ring<T>(std::move(x)));
-            ret = S(x.buffer.size()) + " " + S(x.r.size);
+            ret = S(acc::bufsize(x)) + " " + S(acc::rsize(x));
             t = std::move(c);
             o.tag("move");
         }
@@ -528,7 +529,7 @@ template <class T> struct TR
             size_t n = strtoul(w[1].c_str(), 0, 10);
             { igris::ring<T> c(std::move(x)); }
             x.resize(n); q.clear();
-            if (x.room() != n || x.buffer.size() != n + 1) o.fail("resize of a moved-from ring: room " + S(x.room()));
+            if (x.room() != n || acc::bufsize(x) != n + 1) o.fail("resize of a moved-from ring: room " + S(x.room()));
             o.tag("move");
         }
         else if (op == "write" || op == "read")
@@ -619,12 +620,14 @@ static void run_cyc(const std::vector<std::string> &w, out &o)
         cy.log.clear();
     }
     else { o.result = "bad-op"; return; }
-    if (x.counter.counter < 0 || x.counter.counter >= x.counter.size) o.fail("counter outside [0,size)");
-    if ((size_t)x.counter.size != x.data.size()) o.fail("counter size != data size");
+    // `counter` / `data` are data members the property does not name: read when they exist, else the reference's value
+    long cnt = acc::cyc_counter(x, cy.cap ? (long)(cy.log.size() % cy.cap) : 0), csz = acc::cyc_counter_size(x, (long)cy.cap);
+    if (cnt < 0 || cnt >= csz) o.fail("counter outside [0,size)");
+    if ((size_t)csz != acc::cyc_data_size(x, cy.cap)) o.fail("counter size != data size");
     if (x.size() != std::min(cy.log.size(), cy.cap))
         o.fail("size() " + S(x.size()) + " != " + S(std::min(cy.log.size(), cy.cap)));
     if (cy.cap & (cy.cap - 1)) o.tag("nonpow2");
-    o.result = ret + " " + S(x.counter.counter) + " " + S(x.size());
+    o.result = ret + " " + S(cnt) + " " + S(x.size());
 }
 
 static ring_counter rcs;
@@ -689,26 +692,29 @@ struct BRing
     bytering_head r;
     std::unique_ptr<exact_buf> buf;
     std::deque<uint8_t> q;
+    size_t npush = 0, npop = 0; // accepted pushes / pops (positions predicted by the reference, see acc::bring_view)
+    acc::bview view() { return acc::bring_view(r, buf->p, buf->n, npop, npush); }
 };
 static std::unique_ptr<BRing> br;
 static std::string bring_state(BRing &b)
 {
-    return S(b.r.head - b.r.start) + " " + S(b.r.tail - b.r.start) + " " + S(bytering_empty(&b.r) ? 1 : 0) + " " +
+    acc::bview v = b.view();
+    return S(v.head) + " " + S(v.tail) + " " + S(bytering_empty(&b.r) ? 1 : 0) + " " +
            S(bytering_full(&b.r) ? 1 : 0);
 }
 static void bring_check(BRing &b, out &o)
 {
     bytering_head *r = &b.r;
     size_t size = b.buf->n;
-    if (r->start != b.buf->p || r->end != b.buf->p + size) o.fail("start/end moved");
-    if (!(r->head >= r->start && r->head < r->end)) o.fail("head outside [start,end)");
-    if (!(r->tail >= r->start && r->tail < r->end)) o.fail("tail outside [start,end)");
+    acc::bview v = b.view();
+    if (!v.block_ok) o.fail("start/end moved");
+    if (!v.in_range) o.fail("head or tail outside [start,end)");
     if ((bytering_empty(r) != 0) != b.q.empty()) o.fail("bytering_empty disagrees with reference (" + S(b.q.size()) + " stored)");
     if ((bytering_full(r) != 0) != (b.q.size() == size - 1)) o.fail("bytering_full disagrees with reference (" + S(b.q.size()) + " stored of " + S(size - 1) + ")");
     if (b.q.empty()) o.tag("empty");
     if (b.q.size() == size - 1) o.tag("full");
     if (size & (size - 1)) o.tag("nonpow2");
-    if (r->tail < r->head) o.tag("wrapped");
+    if (v.tail < v.head) o.tag("wrapped");
 }
 static void run_bring(const std::vector<std::string> &w, out &o)
 {
@@ -720,14 +726,14 @@ static void run_bring(const std::vector<std::string> &w, out &o)
     if (op == "push" || op == "pushn")
     {
         uint8_t c = unhex(w[1])[0];
-        bytering_head before = *r;
+        acc::bview before = b.view();
         bytes snap = b.buf->vec();
         bool full = b.q.size() == size - 1;
         if (op == "pushn")
         { // unchecked variant: the caller has tested bytering_full itself
             if (full) { o.result = "bad-op"; return; }
             bytering_push_nocheck(r, c);
-            b.q.push_back(c);
+            b.q.push_back(c); b.npush++;
         }
         else
         {
@@ -737,20 +743,20 @@ static void run_bring(const std::vector<std::string> &w, out &o)
             {
                 o.tag("reject-full");
                 if (rc != -1) o.fail("push on a full ring returned " + S(rc));
-                if (before.head != r->head || before.tail != r->tail || snap != b.buf->vec())
+                if (before.head != b.view().head || before.tail != b.view().tail || snap != b.buf->vec())
                     o.fail("push on a full ring changed the state");
             }
             else
             {
                 if (rc != 0) o.fail("push with " + S(b.q.size()) + " of " + S(size - 1) + " stored returned " + S(rc));
-                b.q.push_back(c);
+                b.q.push_back(c); b.npush++;
             }
         }
         if (c == 0xff) o.tag("ff"); else if (c >= 0x80) o.tag("hi-byte");
     }
     else if (op == "pop" || op == "popn")
     {
-        bytering_head before = *r;
+        acc::bview before = b.view();
         bytes snap = b.buf->vec();
         bool empty = b.q.empty();
         if (op == "popn" && empty) { o.result = "bad-op"; return; }
@@ -761,12 +767,12 @@ static void run_bring(const std::vector<std::string> &w, out &o)
         {
             o.tag("reject-empty");
             if (rc != -1) o.fail("pop on an empty ring returned " + S(rc));
-            if (before.head != r->head || before.tail != r->tail) o.fail("pop on an empty ring changed the state");
+            if (before.head != b.view().head || before.tail != b.view().tail) o.fail("pop on an empty ring changed the state");
         }
         else
         {
             uint8_t exp = b.q.front();
-            b.q.pop_front();
+            b.q.pop_front(); b.npop++;
             if (rc != (int)exp) o.fail("pop returned " + S(rc) + " for stored byte " + S(exp));
             if (exp == 0xff) o.tag("ff"); else if (exp >= 0x80) o.tag("hi-byte");
         }
@@ -780,7 +786,7 @@ static void run_bring(const std::vector<std::string> &w, out &o)
 
 // ===================================================== round 3: stateless ops
 // ---- `widths`: sizeof / signedness of every index, size and counter type the model embeds
-template <class T> static std::string ty() { return std::string(std::is_signed<T>::value ? "i" : "u") + S(sizeof(T)); }
+using acc::ty;
 static std::string widths_line()
 {
     ring_head *rp = nullptr;
@@ -788,7 +794,7 @@ static std::string widths_line()
     std::string s;
     s += "head " + ty<decltype(ring_head::head)>() + " tail " + ty<decltype(ring_head::tail)>() + " size " + ty<decltype(ring_head::size)>();
     s += " rc.counter " + ty<decltype(ring_counter::counter)>() + " rc.size " + ty<decltype(ring_counter::size)>();
-    s += " cyc._size " + ty<decltype(igris::cyclic_buffer<int>::_size)>() + " arr.m_size " + ty<decltype(igris::unbounded_array<int>::m_size)>();
+    s += " cyc._size " + acc::cyc_size_width<igris::cyclic_buffer<int>>() + " arr.m_size " + acc::arr_size_width<igris::unbounded_array<int>>();
     s += " ring_read " + ty<decltype(ring_read(rp, (const char *)0, (char *)0, 0u))>();
     s += " ring_write " + ty<decltype(ring_write(rp, (char *)0, (const char *)0, 0u))>();
     s += " ring_avail " + ty<decltype(ring_avail(rp))>() + " ring_room " + ty<decltype(ring_room(rp))>();
@@ -798,7 +804,6 @@ static std::string widths_line()
     s += " t.avail " + ty<decltype(tp->avail())>() + " t.room " + ty<decltype(tp->room())>() + " t.size " + ty<decltype(tp->size())>();
     s += " t.index_of " + ty<decltype(tp->index_of((char *)0))>() + " t.tail_index " + ty<decltype(tp->tail_index())>();
     s += " t.distance " + ty<decltype(tp->distance(0, 0))>() + " t.fixup_index " + ty<decltype(tp->fixup_index(0))>();
-    s += " ring_head " + S(sizeof(ring_head)) + " ring_counter " + S(sizeof(ring_counter));
     s += " int_max " + S(INT_MAX) + " uint_max " + S(UINT_MAX);
     return s;
 }
@@ -841,7 +846,7 @@ static std::string premain_compute()
     ring_counter_increment(&k, 9);
     int pv = ring_counter_prev(&k, 5);
     return S(rc1) + " " + S(rc2) + " " + S(g1) + " " + S(wr) + " " + hex((const uint8_t *)dst, rd < 0 ? 0 : (size_t)rd) + " " + st + " " + S(fx) + " " +
-           S(la) + " " + S(tl) + " " + ints_csv(gl) + " " + S(av) + " " + S(old) + " " + S(a0) + " " + S(a2) + " " + S(c.counter.counter) + " " +
+           S(la) + " " + S(tl) + " " + ints_csv(gl) + " " + S(av) + " " + S(old) + " " + S(a0) + " " + S(a2) + " " + S(acc::cyc_counter(c, 4 % 3)) + " " +
            S(k.counter) + " " + S(pv);
 }
 static char PREMAIN[512]; // zero-initialised storage: usable before any constructor has run
@@ -1009,7 +1014,12 @@ static void run_op(const std::vector<std::string> &w, const std::string &, out &
     { // one-line cases of round 3: `reset <kind> ...` (a case of its own: crash / replay granularity = the line)
         std::vector<std::string> v(w.begin() + 1, w.end());
         const std::string &k = v[0];
-        if (k == "widths") { o.result = widths_line(); o.tag("consts"); return; }
+        if (k == "widths")
+        { // struct sizes (padding, additional members) are not fixed by the property: reported as tags only
+            o.result = widths_line(); o.tag("consts");
+            o.tag(("sizeof-ring_head=" + S(sizeof(ring_head))).c_str()); o.tag(("sizeof-ring_counter=" + S(sizeof(ring_counter))).c_str());
+            return;
+        }
         if (k == "premain")
         {
             o.result = PREMAIN;
@@ -1055,7 +1065,7 @@ static void run_op(const std::vector<std::string> &w, const std::string &, out &
             cy.cap = strtoul(w[2].c_str(), 0, 10);
             cy.c.reset(new igris::cyclic_buffer<int>(cy.cap));
             cy.log.clear(); kind = 4;
-            o.result = "- " + S(cy.c->counter.counter) + " " + S(cy.c->size());
+            o.result = "- " + S(acc::cyc_counter(*cy.c, 0)) + " " + S(cy.c->size());
         }
         else if (w.size() == 3 && w[1] == "bring")
         {
